@@ -1,6 +1,7 @@
 (* C03 — Decode/encode round trip: quantisation bound, range refusal, canonical
    fixpoint.  Statements only. *)
 From PBK Require Import Base Bits BitsProofs Descr Walk Coder Float53 Decode Encode RoundTrip Float53Proofs.
+From PBK Require Import Column DecodeC EncodeC EncodeCG RoundTripC RoundTripCExamples.
 
 (* The decoder inverts the encoder: whenever the (ghost) encoder accepts the
    values of ANY template (all operators, bitmaps, nested replication, any
@@ -66,3 +67,38 @@ Theorem C03_decode_prefix_fails : forall T vals outs w g w' x,
   forall r, decode_uncompressed T (length vals) w' <> Ok r.
 Proof. exact decode_prefix_fails. Qed.
 Print Assumptions C03_decode_prefix_fails.
+
+(* ---- COMPRESSED data ------------------------------------------------------------
+   The same statement for compressed data sections (every element stored as one
+   column over all subsets): whenever the compressed ghost encoder
+   (EncodeCG.encode_compressed_ghost: EncodeC.encode_compressed run with a ghost;
+   it refuses only columns outside the domains of the column theorems of C05 —
+   elements wider than 64 bits, a value equal to its element's all-ones pattern,
+   character fields above 63 octets — and factors / bitmaps that read back
+   differently) accepts the values of ANY template, decoding the bits it wrote,
+   followed by any further bits t, yields the same descriptors and links for every
+   subset, exactly the ghost values, and leaves exactly t. *)
+Theorem C03_decode_encode_compressed : forall T vals outs w g t,
+  encode_compressed_ghost T vals = Ok (outs, w, g) ->
+  decode_compressed T (length vals) (w ++ t) = Ok (outs, g, t).
+Proof. exact decode_encode_compressed. Qed.
+Print Assumptions C03_decode_encode_compressed.
+
+Theorem C03_encode_compressed_ghost_is_encode : forall T vals outs w g,
+  encode_compressed_ghost T vals = Ok (outs, w, g) -> encode_compressed T vals = Ok (outs, w).
+Proof. exact encode_compressed_ghost_is_encode. Qed.
+Print Assumptions C03_encode_compressed_ghost_is_encode.
+
+(* no proper prefix of the compressed data bits decodes *)
+Theorem C03_decode_compressed_prefix_fails : forall T vals outs w g w' x,
+  encode_compressed_ghost T vals = Ok (outs, w, g) -> w = w' ++ x -> x <> [] ->
+  forall r, decode_compressed T (length vals) w' <> Ok r.
+Proof. exact decode_compressed_prefix_fails. Qed.
+Print Assumptions C03_decode_compressed_prefix_fails.
+
+(* non-vacuity: a template with numeric / code / character / one-bit flag elements,
+   201YYY, a delayed and a fixed replication, three subsets with missing entries *)
+Example C03_compressed_nonvacuous :
+  exists outs w, encode_compressed_ghost exc_T exc_vals = Ok (outs, w, exc_ghost) /\
+                 length w = 358%nat /\ length outs = 3%nat.
+Proof. exact exc_ghost_accepts. Qed.
